@@ -759,6 +759,26 @@ func runC12(c *Ctx) {
 		g := newScenGen(r, r.Intn(2))
 		a := baseCase(g, r.Intn(3))
 		q := g.rule()
+		if r.Chance(1, 4) {
+			// two rules with the same head, body and operands that differ only in one operator:
+			// both are part of the content, whichever is supplied first
+			x := V("x")
+			twin := func(op string) AuthOp {
+				return AuthOp{K: "addrule", Rule: Rule{Head: Pred{Name: "twin", Terms: []Term{x}}, Body: []Pred{{Name: "num", Terms: []Term{x}}},
+					Exprs: []Expr{{{K: 'v', T: x}, {K: 'v', T: I(1)}, {K: 'b', B: op}}}}}
+			}
+			ops := []string{"lt", "gt", "le", "ge", "eq"}
+			i1 := r.Intn(len(ops))
+			i2 := (i1 + 1 + r.Intn(len(ops)-1)) % len(ops)
+			extra := []AuthOp{twin(ops[i1]), twin(ops[i2])}
+			for k := 0; k < 3; k++ {
+				extra = append(extra, AuthOp{K: "addfact", Fact: Pred{Name: "num", Terms: []Term{I(int64(k))}}})
+			}
+			extra = append(extra, AuthOp{K: "addcheck", Check: Check{Queries: []Rule{{Head: Pred{Name: "query"}, Body: []Pred{{Name: "twin", Terms: []Term{I(int64(r.Intn(3)))}}}}}}})
+			a.Ops = append(extra, a.Ops...)
+			q = Rule{Head: Pred{Name: "got", Terms: []Term{x}}, Body: []Pred{{Name: "twin", Terms: []Term{x}}}}
+			c.Count("twin-rules")
+		}
 		base := withOps(a, AuthOp{K: "authorize"}, AuthOp{K: "query", Rule: q}, AuthOp{K: "authorize"})
 		res0, sx0 := emitAuth(c, "base", base)
 		if res0 == "environment-timeout" {
@@ -928,14 +948,16 @@ func runC13(c *Ctx) {
 			hmi = 1 + r.Intn(2)
 			c.Count("history-under-iteration-limit")
 		}
-		whole := AuthCase{MaxFacts: hmf, MaxIter: hmi, Ctor: "for", Tokens: [][]Block{tok}, Ops: all}
+		// (the limits arrive as one WithWorldOptions value or as three separate ones)
+		split := r.Chance(1, 2)
+		whole := AuthCase{MaxFacts: hmf, MaxIter: hmi, SplitOpts: split, Ctor: "for", Tokens: [][]Block{tok}, Ops: all}
 		res, sx := emitAuth(c, "hist", whole)
 		if res == "environment-timeout" {
 			continue
 		}
 		var fresh []string
 		for _, ops := range perRound {
-			rc := AuthCase{MaxFacts: hmf, MaxIter: hmi, Ctor: "for", Tokens: [][]Block{tok}, Ops: ops}
+			rc := AuthCase{MaxFacts: hmf, MaxIter: hmi, SplitOpts: split, Ctor: "for", Tokens: [][]Block{tok}, Ops: ops}
 			rr, _ := emitAuth(c, "round", rc)
 			if rr != "" {
 				fresh = append(fresh, rr)
